@@ -8,7 +8,7 @@ Section RKNProofs.
   Context {K : Type} (kO kI : K) (kadd kmul ksub : K -> K -> K) (kopp : K -> K).
   Hypothesis Rth : ring_theory kO kI kadd kmul ksub kopp (@eq K).
   Add Ring KringRKN : Rth.
-  Context {X : Type} {Fd : Type}.
+  Context {X : Type} {Fd : Type} {A : Type}.
   Notation V := (X -> K).
   Local Infix "+!" := kadd (at level 50, left associativity).
   Local Infix "*!" := kmul (at level 40, left associativity).
@@ -17,24 +17,24 @@ Section RKNProofs.
   Variable dt t0 : K.
   Variable nodes : nat -> K.
   Variable QI Qx : nat -> nat -> K.
-  Variable feval : V -> V -> K -> Fd.
-  Variable build_f : Fd -> V -> V -> K -> V.
-  Variable boris : V -> K -> Fd -> Fd -> V -> V -> V.
+  Variable feval : A -> V -> V -> K -> Fd.
+  Variable build_f : Fd -> A -> V -> V -> K -> V.
+  Variable boris : V -> K -> Fd -> Fd -> A -> V -> V -> V.
   Notation tn := (rkn_tn kadd kmul dt t0 nodes).
   Notation sumf := (sumf kO kadd).
-  Notation st_t := (@rkn_st K X Fd).
+  Notation st_t := (@rkn_st K X Fd A).
   Notation inner b := (rkn_inner_step kO kadd kmul dt t0 nodes QI Qx b feval build_f boris).
   Notation stage b := (rkn_stage kO kadd kmul M dt t0 nodes QI Qx b feval build_f boris).
   Notation update b := (rkn_update kO kadd kmul M dt t0 nodes QI Qx b feval build_f boris).
 
   (* the acceleration the code builds for stage j from the level's data:  P.build_f(L.f[j], L.u[j], t0 + dt*nodes[j]) *)
-  Definition rkn_acc (r : st_t) (j : nat) : V := build_f (rf r j) (rp r j) (rv r j) (tn j).
+  Definition rkn_acc (r : st_t) (j : nat) : V := build_f (rf r j) (ra r j) (rp r j) (rv r j) (tn j).
 
   (* ------------------------------------------------------------ explicit branch (coll.implicit = False) *)
-  Lemma rkn_inner_explicit m (p v : nat -> V) : forall n lo (a b : V) (f : nat -> Fd),
-    fold_left (inner false m p v) (seq lo n) (a, b, f) =
-    (accum kadd a lo n (fun j => vscale kmul (dt *! dt *! Qx (S m) j) (build_f (f j) (p j) (v j) (tn j))),
-     accum kadd b lo n (fun j => vscale kmul (dt *! QI (S m) j) (build_f (f j) (p j) (v j) (tn j))), f).
+  Lemma rkn_inner_explicit m (at_ : nat -> A) (p v : nat -> V) : forall n lo (a b : V) (f : nat -> Fd),
+    fold_left (inner false m at_ p v) (seq lo n) (a, b, f) =
+    (accum kadd a lo n (fun j => vscale kmul (dt *! dt *! Qx (S m) j) (build_f (f j) (at_ j) (p j) (v j) (tn j))),
+     accum kadd b lo n (fun j => vscale kmul (dt *! QI (S m) j) (build_f (f j) (at_ j) (p j) (v j) (tn j))), f).
   Proof.
     induction n as [|n IH]; intros lo a b f; [reflexivity|].
     cbn [seq fold_left]. unfold accum. cbn [seq fold_left]. unfold rkn_inner_step at 2. rewrite IH. reflexivity.
@@ -47,25 +47,27 @@ Section RKNProofs.
 
   Lemma rkn_stage_explicit (st : st_t) m :
     stage false st m =
-    {| rp := upd (rp st) (S m) (rkn_xpos st (rp st 0) (rv st 0) m);
+    {| ra := upd (ra st) (S m) (ra st 0);
+       rp := upd (rp st) (S m) (rkn_xpos st (rp st 0) (rv st 0) m);
        rv := upd (rv st) (S m) (rkn_xvel st (rv st 0) m);
        rf := if Nat.eqb m (M - 1) then rf st
-             else upd (rf st) (S m) (feval (rkn_xpos st (rp st 0) (rv st 0) m) (rkn_xvel st (rv st 0) m) (tn (S m))) |}.
-  Proof. unfold rkn_stage. rewrite rkn_inner_explicit. reflexivity. Qed.
+             else upd (rf st) (S m) (feval (ra st 0) (rkn_xpos st (rp st 0) (rv st 0) m) (rkn_xvel st (rv st 0) m) (tn (S m))) |}.
+  Proof. unfold rkn_stage. rewrite rkn_inner_explicit. rewrite upd_same. reflexivity. Qed.
 
   Lemma rkn_acc_ext (r s : st_t) j :
-    rp r j = rp s j -> rv r j = rv s j -> rf r j = rf s j -> rkn_acc r j = rkn_acc s j.
-  Proof. unfold rkn_acc. intros -> -> ->. reflexivity. Qed.
+    ra r j = ra s j -> rp r j = rp s j -> rv r j = rv s j -> rf r j = rf s j -> rkn_acc r j = rkn_acc s j.
+  Proof. unfold rkn_acc. intros -> -> -> ->. reflexivity. Qed.
 
   (* law-free characterisation of the stage loop (holds for floats as well) *)
   Lemma rkn_loop_spec_explicit : forall n k (st : st_t),
     k + n <= M ->
     let r := fold_left (stage false) (seq k n) st in
-    (forall j, j <= k \/ k + n < j -> rp r j = rp st j /\ rv r j = rv st j /\ rf r j = rf st j) /\
+    (forall j, j <= k \/ k + n < j -> ra r j = ra st j /\ rp r j = rp st j /\ rv r j = rv st j /\ rf r j = rf st j) /\
     (forall m, k <= m < k + n ->
+       ra r (S m) = ra st 0 /\
        rp r (S m) = rkn_xpos r (rp st 0) (rv st 0) m /\
        rv r (S m) = rkn_xvel r (rv st 0) m /\
-       (S m < M -> rf r (S m) = feval (rp r (S m)) (rv r (S m)) (tn (S m))) /\
+       (S m < M -> rf r (S m) = feval (ra r (S m)) (rp r (S m)) (rv r (S m)) (tn (S m))) /\
        (S m = M -> rf r (S m) = rf st (S m))).
   Proof.
     induction n as [|n IH]; intros k st Hk; cbn [seq fold_left].
@@ -74,48 +76,53 @@ Section RKNProofs.
       specialize (IH (S k) st1 ltac:(lia)). cbv zeta in IH. destruct IH as [IHf IHn].
       set (r := fold_left (stage false) (seq (S k) n) st1) in *.
       assert (E1 : st1 = _) by (apply rkn_stage_explicit).
+      assert (Ha1 : forall j, j <> S k -> ra st1 j = ra st j) by (intros j Hj; rewrite E1; cbn [ra]; apply upd_other; exact Hj).
       assert (Hp1 : forall j, j <> S k -> rp st1 j = rp st j) by (intros j Hj; rewrite E1; cbn [rp]; apply upd_other; exact Hj).
       assert (Hv1 : forall j, j <> S k -> rv st1 j = rv st j) by (intros j Hj; rewrite E1; cbn [rv]; apply upd_other; exact Hj).
       assert (Hf1 : forall j, j <> S k -> rf st1 j = rf st j).
       { intros j Hj. rewrite E1; cbn [rf]. destruct (Nat.eqb k (M - 1)); [reflexivity|]. apply upd_other; exact Hj. }
       assert (Hacc : forall j, 1 <= j < 1 + k -> rkn_acc st j = rkn_acc r j).
-      { intros j Hj. symmetry. destruct (IHf j ltac:(lia)) as [Ea [Eb Ec]].
-        apply rkn_acc_ext; [rewrite Ea; apply Hp1 | rewrite Eb; apply Hv1 | rewrite Ec; apply Hf1]; lia. }
+      { intros j Hj. symmetry. destruct (IHf j ltac:(lia)) as [E0 [Ea [Eb Ec]]].
+        apply rkn_acc_ext; [rewrite E0; apply Ha1 | rewrite Ea; apply Hp1 | rewrite Eb; apply Hv1 | rewrite Ec; apply Hf1]; lia. }
       split.
-      + intros j Hj. destruct (IHf j ltac:(lia)) as [Ea [Eb Ec]].
-        rewrite Ea, Eb, Ec, Hp1, Hv1, Hf1 by lia. repeat split; reflexivity.
+      + intros j Hj. destruct (IHf j ltac:(lia)) as [E0 [Ea [Eb Ec]]].
+        rewrite E0, Ea, Eb, Ec, Ha1, Hp1, Hv1, Hf1 by lia. repeat split; reflexivity.
       + intros m Hm. destruct (Nat.eq_dec m k) as [->|Hne].
-        * destruct (IHf (S k) ltac:(lia)) as [Ea [Eb Ec]].
+        * destruct (IHf (S k) ltac:(lia)) as [E0 [Ea [Eb Ec]]].
+          assert (Xa : ra r (S k) = ra st 0) by (rewrite E0, E1; cbn [ra]; apply upd_same).
           assert (Xp : rp r (S k) = rkn_xpos r (rp st 0) (rv st 0) k).
           { rewrite Ea, E1. cbn [rp]. rewrite upd_same. unfold rkn_xpos. apply (accum_ext kadd).
             intros j Hj. rewrite (Hacc j Hj). reflexivity. }
           assert (Xv : rv r (S k) = rkn_xvel r (rv st 0) k).
           { rewrite Eb, E1. cbn [rv]. rewrite upd_same. unfold rkn_xvel. apply (accum_ext kadd).
             intros j Hj. rewrite (Hacc j Hj). reflexivity. }
-          split; [exact Xp|]. split; [exact Xv|]. split.
-          -- intros HM. rewrite Ec, Ea, Eb. rewrite E1 at 1. cbn [rf].
+          split; [exact Xa|]. split; [exact Xp|]. split; [exact Xv|]. split.
+          -- intros HM. rewrite Xa, Ec, Ea, Eb. rewrite E1 at 1. cbn [rf].
              destruct (Nat.eqb_spec k (M - 1)) as [Ek|_]; [lia|]. rewrite upd_same.
              rewrite E1. cbn [rp rv]. rewrite !upd_same. reflexivity.
           -- intros HM. rewrite Ec, E1. cbn [rf].
              destruct (Nat.eqb_spec k (M - 1)) as [_|Ek]; [reflexivity|lia].
-        * destruct (IHn m ltac:(lia)) as [Ea [Eb [Ec Ed]]].
+        * destruct (IHn m ltac:(lia)) as [E0 [Ea [Eb [Ec Ed]]]].
+          rewrite (Ha1 0) in E0 by lia.
           rewrite (Hp1 0), (Hv1 0) in Ea by lia. rewrite (Hv1 0) in Eb by lia.
-          split; [exact Ea|]. split; [exact Eb|]. split; [exact Ec|].
+          split; [exact E0|]. split; [exact Ea|]. split; [exact Eb|]. split; [exact Ec|].
           intros HM. rewrite (Ed HM). apply Hf1. lia.
   Qed.
 
   (* RungeKuttaNystrom.update_nodes, explicit tableaus (shipped: RKN): Nystrom stage form.
      For EVERY number of stages, tableaus QI (velocity), Qx (position), nodes, dt, level data and problem:
        x_m = x_0 + dt c_m v_0 + dt^2 sum_{j<m} Qx[m,j] a_j,     v_m = v_0 + dt sum_{j<m} QI[m,j] a_j,
-       a_j = build_f(f_j, (x_j, v_j), t0 + dt c_j)  built from the NEW stage values,
-     the stored fields of stage m < M are eval_f at the new stage value and at the stage's OWN time t0 + dt*c_m,
+       a_j = build_f(f_j, (attr_j, x_j, v_j), t0 + dt c_j)  built from the NEW stage values,
+     every stage carries the particle attributes (charges, masses) of u0 — whatever object sat in the node before —
+     the stored fields of stage m < M are eval_f at the new stage particle and at the stage's OWN time t0 + dt*c_m,
      the last node's fields, node 0 and everything beyond M are untouched. *)
   Theorem rkn_explicit_stage_form (st : st_t) :
     let r := update false st in
-    (forall j, j = 0 \/ M < j -> rp r j = rp st j /\ rv r j = rv st j /\ rf r j = rf st j) /\
+    (forall j, j = 0 \/ M < j -> ra r j = ra st j /\ rp r j = rp st j /\ rv r j = rv st j /\ rf r j = rf st j) /\
     rf r M = rf st M /\
     forall m, 1 <= m <= M ->
-      (m < M -> rf r m = feval (rp r m) (rv r m) (tn m)) /\
+      ra r m = ra st 0 /\
+      (m < M -> rf r m = feval (ra r m) (rp r m) (rv r m) (tn m)) /\
       forall x,
         rp r m x = rp st 0 x +! dt *! nodes m *! rv st 0 x +! dt *! dt *! sumf (fun j => Qx m j *! rkn_acc r j x) 1 (m - 1) /\
         rv r m x = rv st 0 x +! dt *! sumf (fun j => QI m j *! rkn_acc r j x) 1 (m - 1).
@@ -123,9 +130,9 @@ Section RKNProofs.
     intros r. unfold rkn_update in r.
     pose proof (rkn_loop_spec_explicit M 0 st (le_n M)) as S. cbv zeta in S. fold r in S. destruct S as [Sf Sn].
     split; [intros j Hj; apply Sf; lia|]. split.
-    - destruct M as [|M']; [apply Sf; lia|]. destruct (Sn M' ltac:(lia)) as [_ [_ [_ E]]]. apply E. reflexivity.
-    - intros m Hm. destruct (Sn (m - 1) ltac:(lia)) as [Ep [Ev [Ef _]]].
-      replace (S (m - 1)) with m in * by lia. split; [intros HM; apply Ef; exact HM|].
+    - destruct M as [|M']; [apply Sf; lia|]. destruct (Sn M' ltac:(lia)) as [_ [_ [_ [_ E]]]]. apply E. reflexivity.
+    - intros m Hm. destruct (Sn (m - 1) ltac:(lia)) as [E0 [Ep [Ev [Ef _]]]].
+      replace (S (m - 1)) with m in * by lia. split; [exact E0|]. split; [intros HM; apply Ef; exact HM|].
       intros x. split.
       + rewrite Ep. unfold rkn_xpos. rewrite (accum_spec kO kI kadd kmul ksub kopp Rth). unfold vadd, vscale.
         replace (S (m - 1)) with m by lia.
@@ -139,19 +146,20 @@ Section RKNProofs.
 
   (* compute_end_point(): the last node; with the weights in the last row of the tableaus (what
      ButcherTableauNoCollUpdate builds for tableaus that are not globally stiffly accurate; validated on the real
-     tables every run) it is the Nystrom update  x0 + dt v0 + dt^2 sum bbar_j a_j,  v0 + dt sum b_j a_j *)
+     tables every run) it carries u0's particle attributes and is the Nystrom update  x0 + dt v0 + dt^2 sum bbar_j a_j,  v0 + dt sum b_j a_j *)
   Theorem rkn_end_point_form (st : st_t) (w wbar : nat -> K) :
     1 <= M -> nodes M = kI ->
     (forall j, 1 <= j <= M - 1 -> QI M j = w j /\ Qx M j = wbar j) ->
     let r := update false st in
     let e := rkn_end_point M r in
-    e = (rp r M, rv r M) /\
+    e = (rp r M, rv r M) /\ rkn_end_attr M r = ra st 0 /\
     forall x,
       fst e x = rp st 0 x +! dt *! rv st 0 x +! dt *! dt *! sumf (fun j => wbar j *! rkn_acc r j x) 1 (M - 1) /\
       snd e x = rv st 0 x +! dt *! sumf (fun j => w j *! rkn_acc r j x) 1 (M - 1).
   Proof.
-    intros HM Hn Hw r e. split; [reflexivity|]. intros x.
-    destruct (rkn_explicit_stage_form st) as [_ [_ H]]. fold r in H. destruct (H M ltac:(lia)) as [_ Hx].
+    intros HM Hn Hw r e. split; [reflexivity|].
+    destruct (rkn_explicit_stage_form st) as [_ [_ H]]. fold r in H. destruct (H M ltac:(lia)) as [Hat [_ Hx]].
+    split; [exact Hat|]. intros x.
     destruct (Hx x) as [Hp Hv]. unfold e, rkn_end_point. cbn [fst snd]. rewrite Hp, Hv, Hn. split.
     - rewrite (sumf_ext kO kadd (fun j => Qx M j *! rkn_acc r j x) (fun j => wbar j *! rkn_acc r j x) 1 (M - 1))
         by (intros j Hj; destruct (Hw j ltac:(lia)) as [_ ->]; reflexivity). ring.
@@ -165,18 +173,18 @@ Section RKNImplicit.
   Context {K : Type} (kO kI : K) (kadd kmul ksub : K -> K -> K) (kopp : K -> K).
   Hypothesis Rth : ring_theory kO kI kadd kmul ksub kopp (@eq K).
   Add Ring KringRKNI : Rth.
-  Context {X : Type} {Fd : Type}.
+  Context {X : Type} {Fd : Type} {A : Type}.
   Notation V := (X -> K).
   Local Infix "+!" := kadd (at level 50, left associativity).
   Local Infix "*!" := kmul (at level 40, left associativity).
   Variable dt t0 : K.
   Variable nodes : nat -> K.
   Variable QI Qx : nat -> nat -> K.
-  Variable feval : V -> V -> K -> Fd.
-  Variable build_f : Fd -> V -> V -> K -> V.
-  Variable boris : V -> K -> Fd -> Fd -> V -> V -> V.
+  Variable feval : A -> V -> V -> K -> Fd.
+  Variable build_f : Fd -> A -> V -> V -> K -> V.
+  Variable boris : V -> K -> Fd -> Fd -> A -> V -> V -> V.
   Notation tn := (rkn_tn kadd kmul dt t0 nodes).
-  Notation st_t := (@rkn_st K X Fd).
+  Notation st_t := (@rkn_st K X Fd A).
   Notation update3 := (rkn_update kO kadd kmul 3 dt t0 nodes QI Qx true feval build_f boris).
   Notation "a +v b" := (vadd kadd a b) (at level 50, left associativity).
   Notation "c *v a" := (vscale kmul c a) (at level 40).
@@ -187,25 +195,27 @@ Section RKNImplicit.
      not used at all; the Boris solve of the last node is done twice (j = 1, 2), the second one starting from the
      result of the first; the fields of u0 at t0 end up in every node. *)
   Theorem rkn_implicit_three_node_form (st : st_t) :
+    let a0 := ra st 0 in
     let x0 := rp st 0 in
     let v0 := rv st 0 in
-    let F0 := feval x0 v0 t0 in
+    let F0 := feval a0 x0 v0 t0 in
     let tend := t0 +! dt in
     let times0 := fun (v : V) => (fun x => v x *! kO) : V in
     let x1 : V := x0 +v (dt *! nodes 1) *v v0 in
-    let a1 := build_f F0 x1 v0 (tn 1) in
+    let a1 := build_f F0 a0 x1 v0 (tn 1) in
     let x2 : V := x0 +v (dt *! nodes 2) *v v0 +v (dt *! dt *! Qx 2 1) *v a1 in
-    let v2 := boris (times0 v0) dt F0 (feval x2 v0 tend) x0 v0 in
-    let a2 := build_f F0 x2 v2 (tn 2) in
+    let v2 := boris (times0 v0) dt F0 (feval a0 x2 v0 tend) a0 x0 v0 in
+    let a2 := build_f F0 a0 x2 v2 (tn 2) in
     let x3a : V := x0 +v (dt *! nodes 3) *v v0 +v (dt *! dt *! Qx 3 1) *v a1 in
-    let v3a := boris (times0 v0) dt F0 (feval x3a v0 tend) x0 v0 in
+    let v3a := boris (times0 v0) dt F0 (feval a0 x3a v0 tend) a0 x0 v0 in
     let x3 : V := x3a +v (dt *! dt *! Qx 3 2) *v a2 in
-    let v3 := boris (times0 v3a) dt F0 (feval x3 v3a tend) x0 v0 in
+    let v3 := boris (times0 v3a) dt F0 (feval a0 x3 v3a tend) a0 x0 v0 in
     let r := update3 st in
     (rp r 0 = x0 /\ rv r 0 = v0) /\ (rp r 1 = x1 /\ rv r 1 = v0) /\ (rp r 2 = x2 /\ rv r 2 = v2) /\ (rp r 3 = x3 /\ rv r 3 = v3) /\
     (rf r 0 = F0 /\ rf r 1 = F0 /\ rf r 2 = F0 /\ rf r 3 = F0) /\
-    (forall j, 3 < j -> rp r j = rp st j /\ rv r j = rv st j /\ rf r j = rf st j) /\
-    rkn_end_point 3 r = (x3, v3).
+    (ra r 0 = a0 /\ ra r 1 = a0 /\ ra r 2 = a0 /\ ra r 3 = a0) /\
+    (forall j, 3 < j -> ra r j = ra st j /\ rp r j = rp st j /\ rv r j = rv st j /\ rf r j = rf st j) /\
+    rkn_end_point 3 r = (x3, v3) /\ rkn_end_attr 3 r = a0.
   Proof.
     cbv zeta. repeat split; try reflexivity;
       (destruct j as [|[|[|[|j]]]]; [lia|lia|lia|lia|reflexivity]).
@@ -215,27 +225,29 @@ Section RKNImplicit.
      real tables every run), fields that do not depend on the velocity and a Boris solver that respects pointwise
      equality of its c-term (rkn_velocity_verlet_hyps_sat: satisfiable):
         x_new = x0 + dt v0 + dt^2 Qx[3,1] a(F(x0), (x0 + dt v0, v0)),
-        v_new = boris(0, dt, F(x0), F(x_new), u0)          (Qx[3,1] = 1/2 for the shipped tableau). *)
+        v_new = boris(0, dt, F(x0), F(x_new), u0)          (Qx[3,1] = 1/2 for the shipped tableau),
+     everything evaluated with the particle attributes of u0, which the end value carries. *)
   Corollary rkn_velocity_verlet_form (st : st_t) :
     nodes 1 = kI -> nodes 3 = kI -> Qx 3 2 = kO ->
-    (forall p v v' t, feval p v t = feval p v' t) ->
-    (forall c c' d fo fn p v, (forall x, c x = c' x) -> forall x, boris c d fo fn p v x = boris c' d fo fn p v x) ->
+    (forall a p v v' t, feval a p v t = feval a p v' t) ->
+    (forall c c' d fo fn a p v, (forall x, c x = c' x) -> forall x, boris c d fo fn a p v x = boris c' d fo fn a p v x) ->
     let r := update3 st in
     let e := rkn_end_point 3 r in
-    let F0 := feval (rp st 0) (rv st 0) t0 in
-    let a := build_f F0 (rp r 1) (rv r 1) (t0 +! dt *! nodes 1) in
-    (forall x, rp r 1 x = rp st 0 x +! dt *! rv st 0 x) /\ rv r 1 = rv st 0 /\
+    let a0 := ra st 0 in
+    let F0 := feval a0 (rp st 0) (rv st 0) t0 in
+    let a := build_f F0 a0 (rp r 1) (rv r 1) (t0 +! dt *! nodes 1) in
+    (forall x, rp r 1 x = rp st 0 x +! dt *! rv st 0 x) /\ rv r 1 = rv st 0 /\ rkn_end_attr 3 r = a0 /\
     (forall x, fst e x = rp st 0 x +! dt *! rv st 0 x +! dt *! dt *! Qx 3 1 *! a x) /\
-    (forall x, snd e x = boris (fun _ => kO) dt F0 (feval (fst e) (rv st 0) (t0 +! dt)) (rp st 0) (rv st 0) x).
+    (forall x, snd e x = boris (fun _ => kO) dt F0 (feval a0 (fst e) (rv st 0) (t0 +! dt)) a0 (rp st 0) (rv st 0) x).
   Proof.
-    intros Hn1 Hn3 Hq Hfv Hb r e F0 a.
+    intros Hn1 Hn3 Hq Hfv Hb r e a0 F0 a.
     pose proof (rkn_implicit_three_node_form st) as T. cbv zeta in T.
-    destruct T as [_ [[H1p H1v] [_ [_ [_ [_ He]]]]]]. fold r in He, H1p, H1v. fold e in He.
+    destruct T as [_ [[H1p H1v] [_ [_ [_ [_ [_ [He Ha]]]]]]]]. fold r in He, H1p, H1v, Ha. fold e in He.
     unfold a. rewrite He, H1p, H1v. cbn [fst snd].
-    split; [intros x; unfold vadd, vscale; rewrite Hn1; ring|]. split; [reflexivity|]. split.
-    - intros x. unfold vadd, vscale. rewrite Hq, Hn3. unfold rkn_tn, F0. ring.
-    - intros x. fold F0.
-      match goal with |- boris ?c dt F0 (feval ?p ?v ?t) _ _ x = _ => rewrite (Hfv p v (rv st 0) t) end.
+    split; [intros x; unfold vadd, vscale; rewrite Hn1; ring|]. split; [reflexivity|]. split; [exact Ha|]. split.
+    - intros x. unfold vadd, vscale. rewrite Hq, Hn3. unfold rkn_tn, F0, a0. ring.
+    - intros x. fold a0. fold F0.
+      match goal with |- boris ?c dt F0 (feval a0 ?p ?v ?t) _ _ _ x = _ => rewrite (Hfv a0 p v (rv st 0) t) end.
       apply Hb. intros y. ring.
   Qed.
 End RKNImplicit.
@@ -244,13 +256,13 @@ End RKNImplicit.
 From Coq Require Import ZArith QArith Qcanon.
 
 (* the hypotheses of rkn_velocity_verlet_form are satisfiable on a non-trivial instance (Z, one component,
-   E(x,t) = x + t independent of the velocity, Boris solve v0 + c + dt (E_old + E_new)) *)
+   E = q x + t independent of the velocity, Boris solve v0 + c + q dt (E_old + E_new), attribute = charge q) *)
 Example rkn_velocity_verlet_hyps_sat :
-  let feval := fun (p v : unit -> Z) (t : Z) => (p tt + t)%Z in
-  let boris := fun (c : unit -> Z) (d fo fn : Z) (p v : unit -> Z) => fun x : unit => (v x + c x + d * (fo + fn))%Z in
-  (forall p v v' t, feval p v t = feval p v' t) /\
-  (forall c c' d fo fn p v, (forall x, c x = c' x) -> forall x, boris c d fo fn p v x = boris c' d fo fn p v x).
-Proof. split; [reflexivity|]. intros c c' d fo fn p v H x. cbv beta. rewrite H. reflexivity. Qed.
+  let feval := fun (a : Z) (p v : unit -> Z) (t : Z) => (a * p tt + t)%Z in
+  let boris := fun (c : unit -> Z) (d fo fn : Z) (a : Z) (p v : unit -> Z) => fun x : unit => (v x + c x + a * d * (fo + fn))%Z in
+  (forall a p v v' t, feval a p v t = feval a p v' t) /\
+  (forall c c' d fo fn a p v, (forall x, c x = c' x) -> forall x, boris c d fo fn a p v x = boris c' d fo fn a p v x).
+Proof. split; [reflexivity|]. intros c c' d fo fn a p v H x. cbv beta. rewrite H. reflexivity. Qed.
 
 (* Regression fact for the defect repaired in /repo commit e4532e8 (the old code evaluated the fields of stage m at the
    node of stage m-1): old and repaired behaviour are DISTINGUISHABLE on the shipped RKN tableau (nodes 0, 0, 1/2, 1/2, 1, 1 in
@@ -258,18 +270,18 @@ Proof. split; [reflexivity|]. intros c c' d fo fn p v H x. cbv beta. rewrite H. 
    not those of t0 + dt*nodes[1] = t0 — so a return of the old behaviour cannot go unnoticed by the exact correspondence. *)
 Lemma rkn_old_stage_time_observable :
   exists (M : nat) (dt t0 : Qc) (nodes : nat -> Qc) (QI Qx : nat -> nat -> Qc)
-         (feval : (unit -> Qc) -> (unit -> Qc) -> Qc -> Qc) (build_f : Qc -> (unit -> Qc) -> (unit -> Qc) -> Qc -> unit -> Qc)
-         (boris : (unit -> Qc) -> Qc -> Qc -> Qc -> (unit -> Qc) -> (unit -> Qc) -> unit -> Qc) (st : @rkn_st Qc unit Qc) (m : nat),
+         (feval : unit -> (unit -> Qc) -> (unit -> Qc) -> Qc -> Qc) (build_f : Qc -> unit -> (unit -> Qc) -> (unit -> Qc) -> Qc -> unit -> Qc)
+         (boris : (unit -> Qc) -> Qc -> Qc -> Qc -> unit -> (unit -> Qc) -> (unit -> Qc) -> unit -> Qc) (st : @rkn_st Qc unit Qc unit) (m : nat),
     let r := rkn_update 0%Qc Qcplus Qcmult M dt t0 nodes QI Qx false feval build_f boris st in
     (1 <= m < M)%nat /\
-    rf r m = feval (rp r m) (rv r m) (rkn_tn Qcplus Qcmult dt t0 nodes m) /\
-    rf r m <> feval (rp r m) (rv r m) (rkn_tn Qcplus Qcmult dt t0 nodes (m - 1)).
+    rf r m = feval (ra r m) (rp r m) (rv r m) (rkn_tn Qcplus Qcmult dt t0 nodes m) /\
+    rf r m <> feval (ra r m) (rp r m) (rv r m) (rkn_tn Qcplus Qcmult dt t0 nodes (m - 1)).
 Proof.
   exists 5%nat, (Q2Qc 1), (Q2Qc 0),
     (fun i => nth i [Q2Qc 0; Q2Qc 0; Q2Qc (1#2); Q2Qc (1#2); Q2Qc 1; Q2Qc 1] (Q2Qc 0)),
     (fun _ _ => Q2Qc 0), (fun _ _ => Q2Qc 0),
-    (fun _ _ t => t), (fun f _ _ _ _ => f), (fun _ _ _ _ _ v => v),
-    {| rp := fun _ _ => Q2Qc 0; rv := fun _ _ => Q2Qc 0; rf := fun _ => Q2Qc 0 |}, 2%nat.
+    (fun _ _ _ t => t), (fun f _ _ _ _ _ => f), (fun _ _ _ _ _ _ v => v),
+    {| ra := fun _ => tt; rp := fun _ _ => Q2Qc 0; rv := fun _ _ => Q2Qc 0; rf := fun _ => Q2Qc 0 |}, 2%nat.
   cbv zeta. split; [lia|]. split; [reflexivity|].
   intros H. apply (f_equal this) in H. vm_compute in H. discriminate H.
 Qed.
